@@ -40,7 +40,8 @@ ASSUMPTIONS = [
     'a whole row/column may be returned as a flat list, as a nested 1 x n / n x 1 list, or as the bare element '
     'when it has exactly one item',
     'vector-like arrays (flat list; nested 1 x n or n x 1 as the host supplies single-row/column ranges): '
-    'two-index forms may address along either axis; on a flat list they may also be an error; the '
+    'two-index forms on a FLAT list may address along either axis or be an error; a nested 1 x n / n x 1 array '
+    'states its orientation, so two-index forms are read strictly there; the '
     'single-index form on a *nested* vector may be positional or mean "row k" (so INDEX(A1:C1,2) may be the '
     '2nd item or an error) - under no reading may a different element come back',
     'MATCH on a nested 1 x n / n x 1 vector (host range convention) may return the position among the items or '
@@ -109,10 +110,14 @@ def index_readings(kind, M, rs, cs):
     else:
         R, C = len(M), len(M[0])
         rd = [read2d(M, r, c)]
-        if R == 1:
-            rd.append(read2d([[v] for v in M[0]], r, c))
-        elif C == 1:
-            rd.append(read2d([[row[0] for row in M]], r, c))
+        # a nested array states its own orientation: with two indices given only that reading is accepted
+        # (a position outside the missing dimension is outside the array); the single-index form on a nested
+        # vector may be positional or mean "row k"
+        if cs == 'absent':
+            if R == 1:
+                rd.append(read2d([[v] for v in M[0]], r, c))
+            elif C == 1:
+                rd.append(read2d([[row[0] for row in M]], r, c))
     if any(x[0] == 'any' for x in rd):
         return None
     out = []
